@@ -1,5 +1,5 @@
 (* C12 — AuxPoW headers are skipped exactly, leaving block hash and txs unaffected. Pinned statements only: each theorem is closed by `exact` of a lemma proved in theories/. *)
-From RBP Require Import Bytes Hashes Wire Block BlockP Render Index IndexP Model ModelP StoreP CsvP.
+From RBP Require Import Bytes Hashes Wire Block BlockP Render Index IndexP Model ModelP StoreP CsvP CbP FrameP.
 From RBP Require Drive Merkle Utxo Stats OutProto Reader Published Misc.
 
 Theorem C12_block_roundtrip_with_section :
@@ -26,9 +26,19 @@ Theorem C12_published_thresholds :
   map (fun e : list N * (N * N * list N * option N) => (fst e, snd (snd e))) Published.coins = [([98; 105; 116; 99; 111; 105; 110], None); ([100; 111; 103; 101; 99; 111; 105; 110], Some 6422786); ([108; 105; 116; 101; 99; 111; 105; 110], None); ([109; 121; 114; 105; 97; 100; 99; 111; 105; 110], None); ([110; 97; 109; 101; 99; 111; 105; 110], Some 65793); ([110; 111; 116; 101; 98; 108; 111; 99; 107; 99; 104; 97; 105; 110], None); ([116; 101; 115; 116; 110; 101; 116; 51], None); ([117; 110; 111; 98; 116; 97; 110; 105; 117; 109], None)].
 Proof. exact published_thresholds. Qed.
 
+Theorem C12_rows_independent_of_section :
+  forall (c : coin) (h : N) (b b' : block), b_size b = b_size b' -> b_header b = b_header b' -> b_txs b = b_txs b' -> csv_block_writes (h, eval_block c b) = csv_block_writes (h, eval_block c b').
+Proof. exact rows_independent_of_section. Qed.
+
+Theorem C12_utxo_and_lines_independent :
+  forall (c : coin) (h : N) (b b' : block), b_txs b = b_txs b' -> utxo_events [(h, eval_block c b)] = utxo_events [(h, eval_block c b')] /\ opreturn_lines [(h, eval_block c b)] = opreturn_lines [(h, eval_block c b')].
+Proof. exact utxo_and_lines_independent_of_section. Qed.
+
 Print Assumptions C12_block_roundtrip_with_section.
 Print Assumptions C12_section_irrelevant.
 Print Assumptions C12_auxpow_roundtrip.
 Print Assumptions C12_no_threshold_no_section.
 Print Assumptions C12_section_iff_threshold.
 Print Assumptions C12_published_thresholds.
+Print Assumptions C12_rows_independent_of_section.
+Print Assumptions C12_utxo_and_lines_independent.
